@@ -8,7 +8,8 @@
 // Output = per-op error class + the observable state through the public getters. Predicate, on the implementation's own
 // outputs: (reload) a client reopened from the file answers every getter and a final SetLabel probe exactly like the live
 // one; (password) every listed account opens with its current password - yielding the key of its address - and with no
-// other password of the vocabulary.
+// other password of the vocabulary; (default) exactly one account is flagged default, it is the one the default getter returns and
+// the last one set, live and reopened.
 package main
 
 import (
@@ -135,6 +136,7 @@ type world struct {
 	curPw   map[string]uint64
 	origin  map[string]string // "new" | "import" | "foreign" | "changed"
 	dupAddr bool
+	expDefault string // shadow: the account that must be the default = first account of the wallet, then the last SetDefaultAccount
 }
 
 func (w *world) addr(ref string) (string, bool) {
@@ -215,7 +217,7 @@ func vocabulary(ops []string) vocab {
 			addL(f[1])
 			addP(f[3])
 			news++
-		case f[0] == "imp" && len(f) == 7:
+		case f[0] == "imp" && (len(f) == 7 || len(f) == 8):
 			addL(f[2])
 			addP(f[5])
 		case f[0] == "lab" && len(f) == 3:
@@ -325,6 +327,7 @@ func exec(line string) hx.Result {
 				return hx.Result{Out: "bad-op"}
 			}
 			w.news++
+			wasEmpty := len(w.cli.GetWalletData().Accounts) == 0
 			acc, err := w.cli.NewAccount(lab(p[1]), keypair.PK_ECDSA, keypair.P256, s.SignatureScheme(sch), pwBytes(pw))
 			o = errClass(err, false)
 			if err == nil {
@@ -333,8 +336,12 @@ func exec(line string) hx.Result {
 				w.refOf[a] = fmt.Sprintf("n%d", w.news)
 				w.curPw[a], w.origin[a] = pw, "new"
 				kinds["new"] = true
+				if wasEmpty {
+					w.expDefault = a
+				}
 			}
-		case p[0] == "imp" && len(p) == 7:
+		case p[0] == "imp" && (len(p) == 7 || len(p) == 8):
+			metaDefault := len(p) == 8 && p[7] == "1" // the metadata's IsDefault (exported from a wallet where it was the default)
 			k, e1 := strconv.Atoi(p[1])
 			alg, e2 := strconv.ParseUint(p[3], 10, 8)
 			sch, e3 := strconv.Atoi(p[4])
@@ -349,13 +356,20 @@ func exec(line string) hx.Result {
 				return hx.Result{Out: "bad-op"}
 			}
 			had := w.cli.GetAccountMetadataByAddress(ps.addr) != nil
-			err = w.cli.ImportAccount(&account.AccountMetadata{Label: lab(p[2]), KeyType: algName(alg), Curve: prot.Param["curve"], Address: ps.addr,
+			wasEmpty := len(w.cli.GetWalletData().Accounts) == 0
+			if metaDefault {
+				kinds["import-flagged-default"] = true
+			}
+			err = w.cli.ImportAccount(&account.AccountMetadata{IsDefault: metaDefault, Label: lab(p[2]), KeyType: algName(alg), Curve: prot.Param["curve"], Address: ps.addr,
 				PubKey: ps.pub, SigSch: s.SignatureScheme(sch).Name(), Salt: prot.Salt, Key: prot.Key, EncAlg: prot.EncAlg, Hash: prot.Hash})
 			o = errClass(err, false)
 			if err == nil {
 				if had {
 					w.dupAddr = true
 					kinds["dup-address"] = true
+				}
+				if wasEmpty {
+					w.expDefault = ps.addr
 				}
 				w.curPw[ps.addr] = pw
 				if ip == prm && pw != 0 {
@@ -382,6 +396,10 @@ func exec(line string) hx.Result {
 				return hx.Result{Out: "bad-op"}
 			}
 			o = errClass(w.cli.SetDefaultAccount(a), false)
+			if o == "ok" {
+				w.expDefault = a
+				kinds["default-moved"] = true
+			}
 		case p[0] == "lab" && len(p) == 3:
 			a, ok := w.addr(p[1])
 			if !ok {
@@ -453,6 +471,37 @@ func exec(line string) hx.Result {
 	} else if reProbe != liveProbe {
 		res.Fail, res.Class = fmt.Sprintf("SetLabel(a,\"\") answers %s on the live wallet and %s after reopening", liveProbe, reProbe), "setlabel-empty-poisons-label-index"
 	}
+	// default predicate: exactly one account flagged default (none in an empty wallet), it is what GetDefaultAccountMetadata
+	// returns, and it is the last one set - on the live client and on the reopened one
+	if res.Fail == "" {
+		checkDefault := func(cli *account.ClientImpl, who string) {
+			n := len(cli.GetWalletData().Accounts)
+			flagged := 0
+			for i := 1; i <= n; i++ {
+				if m := cli.GetAccountMetadataByIndex(i); m != nil && m.IsDefault {
+					flagged++
+				}
+			}
+			want := 1
+			if n == 0 {
+				want = 0
+			}
+			d := cli.GetDefaultAccountMetadata()
+			switch {
+			case res.Fail != "":
+			case flagged != want:
+				res.Fail, res.Class = fmt.Sprintf("%s wallet: %d accounts are flagged default (expected %d)", who, flagged, want), "default-flag-count"
+			case n > 0 && (d == nil || !d.IsDefault):
+				res.Fail, res.Class = who+" wallet: the default account pointer is missing or points to an unflagged account", "default-pointer-unflagged"
+			case n > 0 && d.Address != w.expDefault:
+				res.Fail, res.Class = fmt.Sprintf("%s wallet: default is %s, the last one set is %s", who, w.refOf[d.Address], w.refOf[w.expDefault]), "default-not-last-set"
+			}
+		}
+		checkDefault(w.cli, "live")
+		if c2, err := account.NewClientImpl(w.path); err == nil && fileExists(w.path) {
+			checkDefault(c2, "reopened")
+		}
+	}
 	// password predicate
 	if res.Fail == "" && !w.dupAddr {
 		for i, a := range w.cli.GetWalletData().Accounts {
@@ -485,7 +534,7 @@ func exec(line string) hx.Result {
 		}
 	}
 	res.Kind = "plain"
-	for _, k := range []string{"dup-address", "empty-new-pw", "empty-label", "new", "foreign-import", "deleted", "pw-changed", "reopened"} {
+	for _, k := range []string{"dup-address", "empty-new-pw", "import-flagged-default", "default-moved", "empty-label", "new", "foreign-import", "deleted", "pw-changed", "reopened"} {
 		if kinds[k] {
 			res.Kind = k
 			break
@@ -516,7 +565,7 @@ func main() {
 	hx.Main(hx.Prop{
 		ID: "C38",
 		Rule: "operation sequences (3-14 ops) on the real ClientImpl with a wallet file under build/tmp and low-cost scrypt parameters in the file: imports of 6 deterministic keys " +
-			"(same key twice, foreign scrypt parameters, empty password, bad key type / scheme), NewAccount, deletes (default, wrong password), " +
+			"(same key twice, foreign scrypt parameters, empty password, bad key type / scheme, metadata flagged default or not - into empty and non-empty wallets), NewAccount, deletes (default, wrong password), " +
 			"set default, relabel (duplicate, empty, same), password changes (wrong old, same, empty new), scheme changes, reopen in the middle. Non-trivial = the wallet ends with >= 1 account",
 		Gen:    gen,
 		Exec:   exec,
